@@ -819,6 +819,11 @@ pub fn standard_check<P: Prop>(prop: &P, o: &CheckOpts) -> i32 {
         res.wall_s,
         res.runs as f64 / res.wall_s.max(1e-9)
     );
+    let harness_failures: u64 = res.counters.iter().filter(|(k, _)| k.contains("harness_")).map(|(_, v)| *v).sum();
+    if harness_failures > 0 && exit == 0 {
+        eprintln!("harness error: {} runs could not be executed ({:?})", harness_failures, res.counters.iter().filter(|(k, _)| k.contains("harness_")).collect::<Vec<_>>());
+        exit = 2;
+    }
     let ev_path = o
         .evidence
         .clone()
